@@ -130,11 +130,21 @@ THttpRace ==
          v0 == Get(ver, g, 0)
          hv == IF x.editor \in DOMAIN held /\ held[x.editor].g = g THEN held[x.editor].ver ELSE -1
          Stat(S) == {q \in S : q[1] = g \o ":stat"}
+         HasKey(k) == \E q \in pp : q[1] = k
+         exists == CASE x.obj = "desc" -> HasKey(g \o ":parses") [] x.obj = "wild" -> HasKey(g \o ":wild:perm")
+                     [] x.obj = "keys" -> HasKey(g \o ":parses") [] OTHER -> HasKey(g \o ":user:" \o x.obj \o ":perm")
+         Ok(i) == e.statuses[i] >= 200 /\ e.statuses[i] < 300
+         Val(S, k) == {q[2] : q \in {qq \in S : qq[1] = k}}
      IN /\ Report(First(<<
               IF e.leaks # <<>> THEN "C17_response_reveals_a_secret" ELSE "ok",
               IF \E i \in 1..Len(e.statuses) : e.statuses[i] = -1 THEN "C12_R2_http_request_got_no_response" ELSE "ok",
-              IF hv # v0 /\ e.oks > 0 THEN "C18_X1_conditional_write_succeeded_although_the_tag_is_not_current" ELSE "ok",
-              IF e.oks > 1 THEN "C18_X1_two_racing_writers_with_the_same_tag_both_succeeded" ELSE "ok",
+              IF x.kind = "sametag" /\ hv # v0 /\ e.oks > 0 THEN "C18_X1_conditional_write_succeeded_although_the_tag_is_not_current" ELSE "ok",
+              IF x.kind = "sametag" /\ e.oks > 1 THEN "C18_X1_two_racing_writers_with_the_same_tag_both_succeeded" ELSE "ok",
+              IF x.kind = "create" /\ exists /\ e.oks > 0 THEN "C18_X1_if_none_match_star_overwrote_an_existing_object" ELSE "ok",
+              IF x.kind = "create" /\ e.oks > 1 THEN "C18_X1_two_racing_creators_both_succeeded" ELSE "ok",
+              \* unconditional writers to different parts: whatever was acknowledged is there afterwards
+              IF x.kind = "unconditional" /\ \E i \in 1..Len(e.statuses) : i <= Len(x.keys) /\ Ok(i) /\ Val(P, x.keys[i]) = Val(pp, x.keys[i])
+                THEN "C18_X1_acknowledged_update_silently_lost" ELSE "ok",
               IF e.oks = 0 /\ e.digest # pd THEN "C18_X1_failed_conditional_write_changed_the_definition" ELSE "ok",
               IF \E q \in P : q[2] = "no" THEN "C18_X3_definition_file_partial" ELSE "ok">>))
         /\ pd' = e.digest /\ pp' = P
@@ -160,9 +170,24 @@ TFiles == /\ Ev.ev = "files"
                     ELSE "ok")
           /\ pp' = Pairs(Ev.parts) /\ pd' = Ev.digest
           /\ UNCHANGED <<nbeh, ver, held>>
-TOther == /\ Ev.ev \notin {"New", "http", "httprace", "whip", "whipreq", "dead", "startfail", "files"}
+\* lock-free readers during writes: every body was served under the tag of its own version, and parses
+TReadRace ==
+  /\ Ev.ev = "readrace"
+  /\ LET e == Ev
+         P == Pairs(e.parts)
+         g == e.x.g
+         Stat(S) == {q \in S : q[1] = g \o ":stat"}
+     IN /\ Report(First(<<
+              IF e.noresp > 0 THEN "C12_R2_http_request_got_no_response" ELSE "ok",
+              IF e.partial > 0 THEN "C18_X3_reader_was_served_a_partial_definition" ELSE "ok",
+              IF e.conflicts # <<>> THEN "C18_X3_reader_was_served_one_version_under_the_tag_of_another" ELSE "ok",
+              IF \E q \in P : q[2] = "no" THEN "C18_X3_definition_file_partial" ELSE "ok">>))
+        /\ pd' = e.digest /\ pp' = P
+        /\ ver' = Put(ver, g, IF Stat(P) # Stat(pp) THEN Get(ver, g, 0) + 1 ELSE Get(ver, g, 0))
+        /\ UNCHANGED <<held, nbeh>>
+TOther == /\ Ev.ev \notin {"New", "http", "httprace", "readrace", "whip", "whipreq", "dead", "startfail", "files"}
           /\ UNCHANGED <<nbeh, nbad, pd, pp, ver, held>>
-Step == /\ l <= Len(Trace) /\ (TNew \/ THttp \/ THttpRace \/ TWhip \/ TWhipReq \/ TDead \/ TFiles \/ TOther)
+Step == /\ l <= Len(Trace) /\ (TNew \/ THttp \/ THttpRace \/ TReadRace \/ TWhip \/ TWhipReq \/ TDead \/ TFiles \/ TOther)
         /\ l' = l + 1 /\ UNCHANGED done
 Finish == /\ l = Len(Trace) + 1 /\ ~done /\ done' = TRUE
           /\ PrintT(<<"TRACE-DONE", l - 1, nbeh, 0, IF nbad > 60 THEN 60 ELSE nbad>>)
